@@ -1,6 +1,7 @@
 package main
 
 import (
+	"sync/atomic"
 	"path/filepath"
 	"context"
 	"flag"
@@ -276,12 +277,31 @@ func (p *Program) runJobsL(fns []*ssa.Function, lemmas []*Contract, cfg SolverCf
 		}
 	}
 	psem := make(chan struct{}, 4) // each portfolio entry starts four solver processes
+	// Once two obligations have ended undischarged the verdict of the run is settled (a violation is reported); the
+	// remaining ones still get their turn, but with a sixth of the budget, so that a check on a broken tree ends in
+	// minutes rather than in budget x number of broken obligations.
+	var bad int32
+	fullCfg := cfg
 	for _, q := range pfs {
 		wg.Add(1)
 		go func(q pf) {
 			defer wg.Done()
 			psem <- struct{}{}
 			defer func() { <-psem }()
+			cfg := fullCfg
+			reduced := false
+			if atomic.LoadInt32(&bad) >= 2 {
+				cfg.TimeoutMs = fullCfg.TimeoutMs / 6
+				reduced = true
+			}
+			defer func() {
+				if q.o.Status != "proved" && q.o.Kind != "pre-sat" {
+					atomic.AddInt32(&bad, 1)
+					if reduced && q.o.Status == "unknown" {
+						q.o.Status = "skipped"
+					}
+				}
+			}()
 			// first a goal-directed slice of the hypotheses (sound: only drops facts); `unsat` settles it
 			for _, sl := range q.sliced {
 				tmp := &Obligation{Name: q.o.Name, Kind: q.o.Kind}
@@ -398,7 +418,7 @@ func (p *Program) runJobsL(fns []*ssa.Function, lemmas []*Contract, cfg SolverCf
 	// processes were competing for the machine is tried once more, alone, with twice the budget. On the unchanged tree
 	// this turns a load-induced `unknown` back into a proof; after a change that breaks a property it costs a few
 	// minutes at most (only the first few unknown obligations are retried).
-	if os.Getenv("GOVC_NORETRY") == "" {
+	if os.Getenv("GOVC_NORETRY") == "" && atomic.LoadInt32(&bad) <= 2 {
 		retried := 0
 		for _, q := range pfs {
 			if q.o.Status != "unknown" || q.o.Kind == "pre-sat" || retried >= 4 {
